@@ -230,9 +230,55 @@ def _labels(k, dtype):
     return out
 
 
+_BYTE_CASES = {}
+
+
+def _byte_cases(dtype):
+    """two-block chunks built so that the little-endian bytes of the second
+    block's lookup table occur inside the first block's table at a position
+    that is NOT a multiple of 4 (table offsets count 32-bit words): every
+    sorted pair / triple of a small alphabet as first table x every unaligned
+    position x {one, two} entries taken from there x both block orders"""
+    if dtype in _BYTE_CASES:
+        return _BYTE_CASES[dtype]
+    elem = 4 if dtype == "uint32" else 8
+    alpha = ([0, 1, 5, 9, 12, 256, 65536, 0x01000000, 0x01020304]
+             if elem == 4 else
+             [0, 1, 5, 9, 12, 256, 2 ** 32, 2 ** 40, 0x0102030405060708])
+    out = []
+    for k in (2, 3):
+        for tab in itertools.combinations(alpha, k):
+            tb = b"".join(v.to_bytes(elem, "little") for v in tab)
+            for pos in range(1, len(tb) - elem + 1):
+                if pos % 4 == 0:
+                    continue
+                one = int.from_bytes(tb[pos:pos + elem], "little")
+                seconds = [[one]]
+                if pos + 2 * elem <= len(tb):
+                    two = int.from_bytes(tb[pos + elem:pos + 2 * elem],
+                                         "little")
+                    if one < two:
+                        seconds.append([one, two])
+                for sec in seconds:
+                    for order in ("ab", "ba"):
+                        out.append((list(tab), sec, order))
+    _BYTE_CASES[dtype] = out
+    return out
+
+
 def _gen_values(gen, dtype):
     """(shape_zyx, block, chans) for a named generator"""
     kind = gen[0]
+    if kind == "bytes":
+        tab, sec, order = _byte_cases(dtype)[gen[1]]
+        vals = []
+        for i in range(16):
+            x = i % 4
+            j = (i // 4) * 2 + x % 2
+            first = (x < 2) == (order == "ab")
+            src = tab if first else sec
+            vals.append(src[j % len(src)])
+        return (2, 2, 4), (2, 2, 2), [vals]
     if kind == "ladder":
         _, k, variant, nch = gen
         if k > 512:
@@ -283,6 +329,9 @@ def _gens(tier):
                     continue
                 g.append(["ladder", k, variant, nch])
     g.append(["high-bits"])
+    nb = max(len(_byte_cases("uint32")), len(_byte_cases("uint64")))
+    for n in range(0, nb, 3 if tier == "quick" else 1):
+        g.append(["bytes", n])
     mod_shapes = [list(s) for s in itertools.product(range(1, 6), repeat=3)]
     mod_shapes += [[9, 5, 3], [3, 5, 9], [16, 16, 16]]
     blocks = [[8, 8, 8], [2, 2, 2], [3, 2, 1], [2, 4, 3]]
@@ -428,8 +477,11 @@ def run_unit(u):
         for g in u["gens"]:
             if g[0] == "high-bits" and u["dtype"] == "uint32":
                 continue
+            if g[0] == "bytes" and g[1] >= len(_byte_cases(u["dtype"])):
+                continue
             shape, block, chans = _gen_values(g, u["dtype"])
-            for layout in (LAYOUTS if g[0] != "ladder" or g[1] <= 512
+            for layout in (("C",) if g[0] == "bytes" else
+                           LAYOUTS if g[0] != "ladder" or g[1] <= 512
                            else ("C", "xyzc-view")):
                 _evaluate(col, u["dtype"], shape, block, chans, gen=g,
                           layout=layout)
